@@ -396,8 +396,17 @@ def _spell_module(idx: int, ps: List[str], spellings: List[Dict[str, Any]]) -> T
     return ("\n".join(lines) + "\n", callers)
 
 
+def _c13_redef_task(a) -> List[Dict[str, Any]]:
+    """Redefinition mode: the parameter lists of one batch are defined one after the other under the
+    SAME module and function name in one process (the module file is rewritten and reloaded, as when a
+    notebook cell or an edited module is re-run)."""
+    (batch, root) = a
+    return [_c13_task((idx, ps, spellings, root, "redef")) for (idx, ps, spellings) in batch]
+
+
 def _c13_task(a) -> Dict[str, Any]:
-    (idx, ps, spellings, root) = a
+    (idx, ps, spellings, root) = a[:4]
+    redef = len(a) > 4
     import importlib
     import dds
     import dds._api as api
@@ -407,13 +416,19 @@ def _c13_task(a) -> Dict[str, Any]:
     pkg = os.path.join(root, "vspell")
     os.makedirs(pkg, exist_ok=True)
     open(os.path.join(pkg, "__init__.py"), "a").close()
-    with open(os.path.join(pkg, "m%d.py" % idx), "w") as f:
+    modname = "redef" if redef else "m%d" % idx
+    with open(os.path.join(pkg, modname + ".py"), "w") as f:
         f.write(src)
     if root not in sys.path:
         sys.path.insert(0, root)
     importlib.invalidate_caches()
     dds.accept_module("vspell")
-    mod = importlib.import_module("vspell.m%d" % idx)
+    if redef and ("vspell." + modname) in sys.modules:
+        import linecache
+        linecache.checkcache()
+        mod = importlib.reload(sys.modules["vspell." + modname])
+    else:
+        mod = importlib.import_module("vspell." + modname)
     ops: List[Any] = []
     res: List[Dict[str, Any]] = []
 
@@ -461,10 +476,24 @@ def run_c13(tier: str) -> int:
     tasks = [(i, pl["ps"], pl["sp"], base) for (i, pl) in enumerate(plists)]
     with multiprocessing.get_context("fork").Pool(common.NCPU) as pool:
         outs = pool.map(_c13_task, tasks, chunksize=1)
+    # redefinition mode: batches of parameter lists of equal arity, one process per batch
+    by_arity: Dict[int, List[Any]] = {}
+    for (i, pl) in enumerate(plists):
+        by_arity.setdefault(len(pl["ps"]), []).append((i, pl["ps"], pl["sp"] if len(pl["sp"]) <= 60 else pl["sp"][::len(pl["sp"]) // 60]))
+    batches = []
+    for (ar, lst) in sorted(by_arity.items()):
+        for k in range(0, len(lst), 6):
+            batches.append((lst[k:k + 6], os.path.join(base, "redef_%d_%d" % (ar, k))))
+    with multiprocessing.get_context("fork").Pool(common.NCPU) as pool:
+        redef_outs = [o for part in pool.map(_c13_redef_task, batches, chunksize=1) for o in part]
+    redef_specs = {i: sp for (lst, _) in batches for (i, ps, sp) in lst}
+    outs = [dict(o, mode="fresh") for o in outs] + [dict(o, mode="redefined") for o in redef_outs]
     ncalls = 0
     bindings = set()
     for out in outs:
         pl = plists[out["idx"]]
+        if out["mode"] == "redefined":
+            pl = {"ps": pl["ps"], "sp": redef_specs[out["idx"]]}
         by_bind: Dict[str, List[Dict[str, Any]]] = {}
         for o in out["res"]:
             ncalls += 1
@@ -483,14 +512,14 @@ def run_c13(tier: str) -> int:
             if len(sigs) > 1:
                 a0 = oks[0]
                 b0 = [o for o in oks if o["sig"] != a0["sig"]][0]
-                rep.violation("C13|same-binding-two-signatures|%s" % _spell_diff(pl["ps"], a0, b0),
-                              {"params": pl["ps"], "binding": json.loads(b),
+                rep.violation("C13|same-binding-two-signatures|%s%s" % (_spell_diff(pl["ps"], a0, b0), "|after-redefinition" if out["mode"] == "redefined" else ""),
+                              {"params": pl["ps"], "binding": json.loads(b), "mode": out["mode"],
                                "call_1": {"route": a0["route"], "spelling": a0["sp"], "kw_reversed": a0["rev"], "sig": a0["sig"]},
                                "call_2": {"route": b0["route"], "spelling": b0["sp"], "kw_reversed": b0["rev"], "sig": b0["sig"]}})
             for sg in sigs:
                 if sg in sig_bind and sig_bind[sg] != b:
-                    rep.violation("C13|two-bindings-one-signature|%s" % _bind_diff(json.loads(sig_bind[sg]), json.loads(b)),
-                                  {"params": pl["ps"], "binding_1": json.loads(sig_bind[sg]), "binding_2": json.loads(b), "sig": sg})
+                    rep.violation("C13|two-bindings-one-signature|%s%s" % (_bind_diff(json.loads(sig_bind[sg]), json.loads(b)), "|after-redefinition" if out["mode"] == "redefined" else ""),
+                                  {"params": pl["ps"], "mode": out["mode"], "binding_1": json.loads(sig_bind[sg]), "binding_2": json.loads(b), "sig": sg})
                 sig_bind.setdefault(sg, b)
         if out["idx"] == len(plists) // 2:
             rep.add_sample({"params": pl["ps"], "calls": [{"route": o["route"], "spelling": o["sp"], "sig": o.get("sig")} for o in out["res"][:6]]})
